@@ -16,6 +16,11 @@ open Scfg
 /-- every container an entry names is a region (or names no entry: the top level) -/
 def Conts (H : Hier) : Prop := ∀ b ∈ H, ∀ r, H.get? b.cont = some r → r.isRegion = true
 
+theorem contsOK_sound (H : Hier) (h : contsOK H = true) : Conts H := by
+  intro b hb r hr
+  have := List.all_eq_true.mp h b hb
+  simpa [hr] using this
+
 /-- **Resolving a name = entering by declared headers**, from the name side. -/
 theorem resolve_enter (H : Hier) (hwf : WF H) : ∀ f c n x b,
     H.getIn? c n = some x → resolve H f n = some b → enter H f c n = .ok b := by
